@@ -1,5 +1,7 @@
 package activitypub
 
+import "time"
+
 // C09 — item equality is reflexive, nil-correct and identity-sensitive.
 
 func vpTypeIndex(name string) int {
@@ -513,4 +515,49 @@ func vpW_C09_twin() {
 	x := &Object{ID: vpMkIRI('a')}
 	_ = ItemsEqual(x, x)
 	vpAssert("twin", false)
+}
+
+// durations and instants that differ below the second (seed C09-17: durations compared at "wire
+// precision"): the changed copy is unequal whatever the sub-second parts are. The whole seconds are one of
+// a few fixed values, the nanoseconds are symbolic (mode 0) or taken from a table of boundary values
+// (mode 1); the holder is an object, an actor or an activity.
+func vpH_C09_chg_subsecond() {
+	mk := func(d time.Duration, p time.Time) Item {
+		switch vpChoice(3) {
+		case 0:
+			return &Object{ID: "https://h.ex/i", Type: NoteType, Duration: d, Published: p}
+		case 1:
+			return &Actor{ID: "https://h.ex/i", Type: PersonType, Duration: d, Published: p}
+		default:
+			return &Activity{ID: "https://h.ex/i", Type: CreateType, Duration: d, Published: p, Object: IRI("https://h.ex/o")}
+		}
+	}
+	secs := []int64{0, 1, 90, -1, 86400}[vpChoice(5)]
+	var n1, n2 int64
+	if vpBool() {
+		n1, n2 = vpInt(0, 999999999), vpInt(0, 999999999)
+	} else {
+		tbl := []int64{0, 1, 250000000, 500000000, 999999999}
+		n1, n2 = tbl[vpChoice(len(tbl))], tbl[vpChoice(len(tbl))]
+	}
+	vpAssume(n1 != n2)
+	base := time.Unix(1700000000, 0).UTC()
+	if vpBool() {
+		d1, d2 := time.Duration(secs*1000000000+n1), time.Duration(secs*1000000000+n2)
+		if secs < 0 {
+			d1, d2 = time.Duration(secs*1000000000-n1), time.Duration(secs*1000000000-n2)
+		}
+		vpAssume(d1 != 0 && d2 != 0)
+		x, y := mk(d1, base), mk(d2, base)
+		vpAssert("subsecond/duration/changed-unequal", !ItemsEqual(x, y))
+		vpAssert("subsecond/duration/changed-unequal-rev", !ItemsEqual(y, x))
+		vpAssert("subsecond/duration/reflexive", ItemsEqual(x, x) && ItemsEqual(y, y))
+	} else {
+		p1, p2 := time.Unix(1700000000+secs, n1).UTC(), time.Unix(1700000000+secs, n2).UTC()
+		x, y := mk(time.Second, p1), mk(time.Second, p2)
+		vpAssert("subsecond/published/changed-unequal", !ItemsEqual(x, y))
+		vpAssert("subsecond/published/changed-unequal-rev", !ItemsEqual(y, x))
+		vpAssert("subsecond/published/reflexive", ItemsEqual(x, x) && ItemsEqual(y, y))
+	}
+	vpReach("end")
 }
